@@ -35,7 +35,7 @@ var Metas = map[string]Meta{
 		Design:    "DESIGN.md §4 C04",
 	},
 	"C05": {
-		Text:      "act.Actor.ProcessRun is executed symbolically for every exit-signal kind x trap flag x sender (parent or not) x reason class, and for a handler returning an error at a symbolic position: termination reason, trapped-signal re-dispatch and 'nothing handled afterwards' are asserted on every path. (The concurrent half - causes racing on the process state word - is added by the concurrency entries when present in the evidence.)",
+		Text:      "act.Actor.ProcessRun is executed symbolically for every exit-signal kind x trap flag x sender (parent or not) x reason class, and for a handler returning an error at a symbolic position: termination reason, trapped-signal re-dispatch and 'nothing handled afterwards' are asserted on every path. (The concurrent half - causes racing on the process state word - is added by the concurrency entries when present in the evidence.) Node level (sequential): a process ending by handler error, handler panic (the real recover path of process.run) or node.Kill while asleep gets its terminate callback exactly once with the matching reason, refuses later sends, is gone from the node, and its linked and monitoring processes are each told that reason once. Concurrency mode: failing handler racing Kill, two Kills, and Kill while the handler is parked in waitResponse.",
 		Note:      bmcNote,
 		Technique: "symbolic execution of go/ssa + SMT; native replay",
 		Design:    "DESIGN.md §4 C05",
@@ -59,13 +59,13 @@ var Metas = map[string]Meta{
 		Design:    "DESIGN.md §4 C11",
 	},
 	"C12": {
-		Text:      "A message of each kind (send by pid/name/alias, call by pid/name/alias, response, exit) with symbolic 64-bit ids, priority, reference and payload is executed symbolically through the real sender method of one connection, the produced bytes (with a second frame behind them) through the real serve/read/handleRecvQueue and the real EDF codec of a second connection into a fake core: delivered exactly once, to the addressee, with the true sender, equal payload and options. Segmentation: every way of cutting two frames into <=3 TCP segments. Size limits at sender and receiver with symbolic payloads; important-delivery acknowledgement with the request's reference and the remote result, with pooled buffers treated as arbitrary after release.",
+		Text:      "A message of each kind (send by pid/name/alias, call by pid/name/alias, response, exit) with symbolic 64-bit ids, priority, reference and payload is executed symbolically through the real sender method of one connection, the produced bytes (with a second frame behind them) through the real serve/read/handleRecvQueue and the real EDF codec of a second connection into a fake core: delivered exactly once, to the addressee, with the true sender, equal payload and options. Segmentation: every way of cutting two frames into <=3 TCP segments. Size limits at sender and receiver with symbolic payloads; important-delivery acknowledgement with the request's reference and the remote result, with pooled buffers treated as arbitrary after release. Limit sites: each of the 8 sender methods that carry a payload, with the peer's announced limit and this node's own limit set to different values, refuses exactly when the frame exceeds the peer's limit.",
 		Note:      bmcNote + " Compression algorithms, the flusher timer, proxies/fragmentation and buffers beyond 8 KiB are outside; links are in-memory sinks.",
 		Technique: "symbolic execution of go/ssa (sender -> bytes -> receiver pipeline) + SMT (QF_BV); native replay",
 		Design:    "DESIGN.md §4 C12",
 	},
 	"C16": {
-		Text:      "Untrusted input is a symbolic byte string with a symbolic small length: it is fed to the real serve/read/handleRecvQueue (frame parser; with and without a well-formed magic/version prefix so every message-type branch is reached), to the real edf.Decode (plus a targeted family starting with an array type descriptor), to the decompression path with declared sizes from a boundary set, and to the real handshake readMessage in up to three arbitrary pieces followed by a silent peer. The executor reports any panic that escapes a goroutine (node crash), any deadlock, any path that exceeds a declared step bound (spinning; confirmed natively by a 60 s time-out) and the largest single allocation; assertions: deliveries <= frames, reads <= pieces+1 and never without a deadline, allocation in proportion to the input, decoded values re-encode to bytes that decode equal. Two recorded findings (array descriptor length, declared unpacked size) are excluded by their exact predicates and reproduced on every run.",
+		Text:      "Untrusted input is a symbolic byte string with a symbolic small length: it is fed to the real serve/read/handleRecvQueue (frame parser; with and without a well-formed magic/version prefix so every message-type branch is reached), to the real edf.Decode (plus a targeted family starting with an array type descriptor), to the decompression path with declared sizes from a boundary set, and to the real handshake readMessage in up to three arbitrary pieces followed by a silent peer. The executor reports any panic that escapes a goroutine (node crash), any deadlock, any path that exceeds a declared step bound (spinning; confirmed natively by a 60 s time-out) and the largest single allocation; assertions: deliveries <= frames, reads <= pieces+1 and never without a deadline, allocation in proportion to the input, decoded values re-encode to bytes that decode equal. Two recorded findings (array descriptor length, declared unpacked size) are excluded by their exact predicates and reproduced on every run. Declared size: genuine lzw/zlib/gzip frames produced by the real sender with the unpacked-size field rewritten (0, 1, real-1, real, real+1, real+4096) through the real receive worker: it comes back within a declared step bound and delivers only when the field is truthful.",
 		Note:      bmcNote + " Bounded: <=20 input bytes for frames, <=7 for free-form EDF, <=11 for the array family, <=12 for the handshake reader.",
 		Technique: "symbolic execution of go/ssa over symbolic input buffers with an allocation monitor + SMT (QF_BV); native replay",
 		Design:    "DESIGN.md §4 C16",
@@ -83,8 +83,8 @@ var Metas = map[string]Meta{
 		Design:    "DESIGN.md §4 C14",
 	},
 	"C15": {
-		Text:      "Access-control decisions are executed symbolically: every history of <=4 Enable/Disable calls with symbolic node lists on the remote-spawn and remote-application-start tables followed by the permission query for every (name, peer) - allowed must be justified by an Enable not revoked for that peer; the effective cookie, size limit and flags of an acceptor from the real startAcceptor; and the flag gates: a decoded remote spawn / application-start request into the real routeMessage under symbolic node flags is handed to the core iff this node's flag for exactly that kind of request allows it and is attributed to the connected peer, and a request the peer's announced flags forbid is refused locally (RemoteSpawn, ApplicationStart*).",
-		Note:      bmcNote + " The listener is a stub; handshake digests, SHA-256, TLS, env exposure and the registrar are outside.",
+		Text:      "Access-control decisions are executed symbolically: every history of <=4 Enable/Disable calls with symbolic node lists on the remote-spawn and remote-application-start tables followed by the permission query for every (name, peer) - allowed must be justified by an Enable not revoked for that peer; the effective cookie, size limit and flags of an acceptor from the real startAcceptor; and the flag gates: a decoded remote spawn / application-start request into the real routeMessage under symbolic node flags is handed to the core iff this node's flag for exactly that kind of request allows it and is attributed to the connected peer, and a request the peer's announced flags forbid is refused locally (RemoteSpawn, ApplicationStart*). Env exposure: the real connection.Spawn/SpawnRegister/ApplicationStart with symbolic ExposeEnvRemoteSpawn/ExposeEnvRemoteApplicationStart, the request bytes carried through the peer's real receive path: the requester's environment reaches the peer's core only when the matching option is on. Handshake: the real Start and Accept run against each other over an in-memory connection with real SHA-256 and fresh salts - connected iff the cookies are equal, and then both ends agree on names, incarnations, flags, limits and connection id; a pooled-link request (Join) from a party that does not know the cookie - built with another cookie, altered, or a recorded genuine one replayed byte for byte - must be refused (the replay is accepted: recorded as an open finding).",
+		Note:      bmcNote + " The listener is a stub; TLS certificate digests and the registrar are outside.",
 		Technique: "symbolic execution of go/ssa over symbolic configuration histories + SMT; native replay",
 		Design:    "DESIGN.md §4 C15",
 	},
@@ -101,7 +101,7 @@ var Metas = map[string]Meta{
 		Design:    "DESIGN.md §4 C18",
 	},
 	"C19": {
-		Text:      "The real Pool.ProcessRun and Pool.forward run symbolically on a fake gen.Process whose Forward returns, per attempt, a symbolic outcome (delivered, unknown, terminated, mailbox full; dead workers stay dead): exactly one hand-over of the very same message object, full workers skipped, dead workers replaced on the spot with LinkParent, ring size kept, drop only when all are full. Bounded: pool <=3, <=3 messages.",
+		Text:      "The real Pool.ProcessRun and Pool.forward run symbolically on a fake gen.Process whose Forward returns, per attempt, a symbolic outcome (delivered, unknown, terminated, mailbox full; dead workers stay dead): exactly one hand-over of the very same message object, full workers skipped, dead workers replaced on the spot with LinkParent, ring size kept, drop only when all are full. Bounded: pool <=3, <=3 messages. The contract the pool relies on is checked on the real node code as well: process.Forward (and the Route* sends) to a target whose state is symbolic - sleeping, running, waiting for a response, zombie (killed while busy), terminated, unknown - delivers exactly once iff the target is alive and reports ErrProcessTerminated/ErrProcessUnknown otherwise.",
 		Note:      bmcNote,
 		Technique: "symbolic execution of go/ssa with nondeterministic environment stubs + SMT; native replay",
 		Design:    "DESIGN.md §4 C19",
@@ -113,7 +113,7 @@ var Metas = map[string]Meta{
 		Design:    "DESIGN.md §4 C07",
 	},
 	"C08": {
-		Text:      "The real act.Supervisor (ProcessInit, ProcessRun, handleAction, supOFO/supARFO state machines) runs on a fake gen.Process inside the symbolic executor; the history of child exits (which child, which reason, optional death during the stopping phase, symbolic Significant flags) is explored path-wise with solver-decided feasibility for all 18 (type x strategy x KeepOrder) and 12 (type x strategy x auto-shutdown) configurations; assertions are the clauses of the property (restart scope and order, view consistency, significant/auto-shutdown termination). Bounded: <=3 children, <=4 events.",
+		Text:      "The real act.Supervisor (ProcessInit, ProcessRun, handleAction, supOFO/supARFO state machines) runs on a fake gen.Process inside the symbolic executor; the history of child exits (which child, which reason, optional death during the stopping phase, symbolic Significant flags) is explored path-wise with solver-decided feasibility for all 18 (type x strategy x KeepOrder) and 12 (type x strategy x auto-shutdown) configurations; assertions are the clauses of the property (restart scope and order, view consistency, significant/auto-shutdown termination). Bounded: <=3 children, <=4 events. Management calls: DisableChild/EnableChild are part of the history alphabet - a disabled child is stopped, stays down through group restarts, is started again only by EnableChild, and management calls are accepted again once a restart has completed (the defect found there is fixed).",
 		Note:      bmcNote + " Children are modelled by the fake process: a child that is sent an exit eventually exits with that reason.",
 		Technique: "symbolic execution of go/ssa over symbolic event histories + SMT feasibility/assertion queries; native replay",
 		Design:    "DESIGN.md §4 C08",
